@@ -59,8 +59,29 @@ fn ord(o: Option<Ordering>) -> &'static str {
     }
 }
 
+fn child_cat(k: usize) {
+    // child mode: pop stack 0 k times through the REAL standard input reader and print the popped values
+    use hyeong::core::execute::pop_stack_wrap;
+    let mut st = UnOptState::new();
+    let mut o: Vec<u8> = Vec::new();
+    let mut e: Vec<u8> = Vec::new();
+    let mut ipt = std::io::stdin();
+    let mut outv: Vec<String> = Vec::new();
+    for _ in 0..k {
+        match pop_stack_wrap(&mut ipt, &mut o, &mut e, &mut st, 0) {
+            Ok(n) => outv.push(if n.is_nan() { "NaN".to_string() } else { n.to_string() }),
+            Err(_) => outv.push("ERR".to_string()),
+        }
+    }
+    println!("{}", outv.join(" "));
+}
+
 fn main() {
     std::panic::set_hook(Box::new(|_| {}));
+    if let Ok(v) = std::env::var("VREPLAY_CHILD_CAT") {
+        child_cat(v.parse().unwrap());
+        return;
+    }
     let stdin = io::stdin();
     let out = io::stdout();
     let mut out = out.lock();
@@ -214,6 +235,23 @@ fn run(f: &[String]) -> String {
                     }
                 }
                 format!("O0:{}|{} O2:{}|{}", String::from_utf8_lossy(&o0), String::from_utf8_lossy(&e0), String::from_utf8_lossy(&o2), String::from_utf8_lossy(&e2)).replace('\n', "\\n")
+            }
+            "stdin.cat" => {
+                // stdin.cat \t <hex of input bytes> \t <k>: feeds the bytes to a child process's real stdin
+                let hex = f[1];
+                let bytes: Vec<u8> = (0..hex.len() / 2).map(|i| u8::from_str_radix(&hex[2 * i..2 * i + 2], 16).unwrap()).collect();
+                let mut child = std::process::Command::new(std::env::current_exe().unwrap())
+                    .env("VREPLAY_CHILD_CAT", f[2])
+                    .stdin(std::process::Stdio::piped())
+                    .stdout(std::process::Stdio::piped())
+                    .spawn()
+                    .unwrap();
+                {
+                    let mut si = child.stdin.take().unwrap();
+                    si.write_all(&bytes).unwrap();
+                }
+                let outp = child.wait_with_output().unwrap();
+                String::from_utf8_lossy(&outp.stdout).trim().to_string()
             }
             "num.roundtrip" => { let a = num(f[1]); let s = a.to_string(); let b = Num::from_string(s.clone()); format!("{} {}", s, (a.is_nan() && b.is_nan()) || a == b) }
             _ => "ERR unknown op".to_string(),
